@@ -425,6 +425,23 @@ def h_e_auto(first: int, more: bool, sameas_kind: int, verdict: int, layout: int
                     pick(api, 0, 1), _auto_set(pick(first, 0, 11), pickb(more)))
 
 
+def _two_calls(s1, inst1, s2, inst2, auto1, auto2):
+    """the set of installed solvers may change between two calls in one process: nothing is remembered"""
+    def one(solver, installed, auto):
+        if auto:
+            return _bridge(3, 0, 0, True, 0, 1, 0, False, True, False, 0, (1 << solver) if installed else 0)
+        return _bridge(3, solver, 0, installed, 0, 1, 0, False, True, False, 0)
+    return one(s1, inst1, auto1) and one(s2, inst2, auto2) and one(s1, not inst1, auto2)
+
+
+def h_e_two_calls(s1: int, inst1: bool, s2: int, inst2: bool, auto1: bool, auto2: bool) -> bool:
+    """
+    pre: 0 <= s1 <= 10 and 0 <= s2 <= 10
+    post: _
+    """
+    return untraced(_two_calls, pick(s1, 0, 10), pickb(inst1), pick(s2, 0, 10), pickb(inst2), pickb(auto1), pickb(auto2))
+
+
 # --------------------------------------------------------------- symbolic variant
 def h_s_stdin(s1: bool, s2: bool, s3: bool, verdict: int, layout: int, comments: bool, trailing_zero: bool) -> bool:
     """
